@@ -118,7 +118,7 @@ func VH_C08_body_bound_to_header() {
 	}
 	if sym.Bool("has_btp_digest") {
 		// an arbitrary digest body: the empty digest, encoded as the codec does
-		bf.BTPDigest = codec.BC.MustMarshalToBytes(&struct{ NTDs []int }{})
+		bf.BTPDigest = codec.BC.MustMarshalToBytes(&struct{ NTDs []int }{NTDs: []int{}})
 		sym.Reach("btp-digest")
 	}
 	var buf bytes.Buffer
@@ -131,6 +131,9 @@ func VH_C08_body_bound_to_header() {
 		return
 	}
 	sym.Reach("accepted")
+	if bf.BTPDigest != nil {
+		sym.Reach("accepted-with-btp-digest")
+	}
 	patches := &vhC08TxList{}
 	for _, b := range bf.PatchTransactions {
 		patches.txs = append(patches.txs, &vhC08Tx{bs: b})
